@@ -322,6 +322,23 @@ func (w *World) event(t *Thread, k Kind, o *obj, write bool, result uint64) {
 	}
 }
 
+// hashEvent records an operation on o in the state hash only: it orders the operation
+// against earlier ones on o for pruning (two executions that differ in the order of such
+// operations get different state keys) but creates NO happens-before edge in the vector
+// clocks the oracles read. Used for harness-side observers (shared logs) and for the random
+// id counter, which are not synchronisation of the program under test.
+func (w *World) hashEvent(t *Thread, k Kind, o *obj, result uint64) {
+	t.nev++
+	eh := mix(mix(mix(t.tid, t.nev), mix(uint64(k), o.oid)), mix(mix(t.lastEv, o.wHash), mix(o.rSum, result)))
+	o.wHash = eh
+	o.rSum = 0
+	t.lastEv = eh
+	w.hash += eh
+	if w.trace {
+		w.res.Trace = append(w.res.Trace, fmt.Sprintf("t%d %s res=%d", t.id, k, result))
+	}
+}
+
 func (w *World) newObj(t *Thread) *obj {
 	return &obj{oid: mix(t.tid, t.nev+0x1000000)}
 }
@@ -781,15 +798,16 @@ func EndSetup() {
 	w.setup = false
 }
 
-// Touch records a write event on a named virtual object without being a scheduling point.
-// Harness observers that append to shared logs call it so that log order is part of the
-// happens-before relation used for pruning.
+// Touch records an access to a named harness-side object (a shared log) without being a
+// scheduling point. The order of touches becomes part of the state key used for pruning,
+// but no happens-before edge is created: the oracles' vector clocks only contain the
+// synchronisation of the program under test.
 func Touch(key string) {
 	w := live()
 	if w == nil {
 		return
 	}
-	w.event(w.cur, KTouch, w.namedObj(key), true, 0)
+	w.hashEvent(w.cur, KTouch, w.namedObj(key), 0)
 }
 
 // Clock returns a copy of the running thread's vector clock.
